@@ -10,7 +10,8 @@
 //   - <fn>ValueLists: the distinct case lists of every `switch v.(type)` (the followable-type tests before a push) with
 //     the number of clauses that carry them — a type dropped from ONE such list (`gen.Array` missing from a followable
 //     list) changes a count and adds an entry;
-//   - removeArms: for each remove/removeOne method the case lists of its `switch tv := value.(type)`.
+//   - removeArms: for each remove/removeOne method the case lists of its `switch tv := value.(type)`;
+//   - nthRemoveAllocates: both list arms of Nth.remove call `make` and none appends onto `tv[:i]` (repair 0367e03).
 //
 // `OjgVerif.C13.arms_are_source` compares them with the tables the model was written against.
 // Fails loudly when a function or switch it looks for is missing.
@@ -222,6 +223,44 @@ func extractJpMutArms(repo, out string) ([]string, error) {
 		}
 	}
 	fmt.Fprintf(&b, "def removeArms : List (String × List String) := %s\n\n", leanArms(rem))
+	// Nth.remove builds a new list (0367e03): both list arms call make and neither appends onto `tv[:i]`
+	{
+		jf, err := jmLoad(repo, "nth.go")
+		if err != nil {
+			return nil, err
+		}
+		fd, err := jf.fn("Nth", "remove")
+		if err != nil {
+			return nil, err
+		}
+		ok := true
+		for _, want := range []string{"[]any", "gen.Array"} {
+			cc := jf.clause(fd.Body, want)
+			if cc == nil {
+				return nil, fmt.Errorf("jpmut_arms: Nth.remove has no `case %s`", want)
+			}
+			makes, inPlace := 0, 0
+			for _, st := range cc.Body {
+				ast.Inspect(st, func(n ast.Node) bool {
+					if call, isCall := n.(*ast.CallExpr); isCall {
+						switch jf.txt(call.Fun) {
+						case "make":
+							makes++
+						case "append":
+							if len(call.Args) > 0 && strings.HasPrefix(jf.txt(call.Args[0]), "tv[") {
+								inPlace++
+							}
+						}
+					}
+					return true
+				})
+			}
+			if makes == 0 || inPlace != 0 {
+				ok = false
+			}
+		}
+		fmt.Fprintf(&b, "/-- Nth.remove collects the survivors in a new list (both list arms `make`, none appends onto `tv[:i]`) -/\ndef nthRemoveAllocates : Bool := %v\n\n", ok)
+	}
 	b.WriteString("end OjgVerif.Gen.JpMutArms\n")
 	ch, err := writeIfChanged(filepath.Join(out, "JpMutArms.lean"), b.String())
 	if err != nil {
